@@ -210,6 +210,7 @@ func kindCases() []kcase {
 		{"alias ka.A[kb.T, kc.T] of a type from another package", alias, p("ka", "kb", "kc")},
 		{"a type parameter whose constraint mentions another package", tparam, nil},
 		{"[]map[ka.T]*kb.T (nested)", kElem("*go/types.Slice", &interp.Opaque{Kind: "types.Type", ID: "map2", GoType: "*go/types.Map", Methods: mmap{"Key": tmeth(a), "Elem": tmeth(kElem("*go/types.Pointer", b))}}), p("ka", "kb")},
+		{"map[ka.T]other/ka.T (two packages of one name)", &interp.Opaque{Kind: "types.Type", ID: "map4", GoType: "*go/types.Map", Methods: mmap{"Key": tmeth(a), "Elem": tmeth(kNamedIn(kpath("other/ka"), "ka", "T", nil, nil))}}, p("ka", "other/ka")},
 		{"a type of a vendored package", kNamedIn("example.test/src/vendor/"+kpath("kv"), "kv", "V", nil, nil), p("kv")},
 	}
 }
@@ -278,13 +279,10 @@ func walkerFunc(prog *load.Program) *types.Func {
 
 func kindsTable(c *Ctx) {
 	run, prog := c.Run, c.Prog
-	fn := walkerFunc(prog)
-	if fn == nil {
-		run.Undecided("G-KINDS/table", "role", "internal/registry/method_scope.go", "the import discovery walker (a registry function taking a types.Type and a map of imports) was not found")
-		return
+	pos := "internal/registry/method_scope.go"
+	if fn := prog.LookupFunc(load.PkgRegistry, "MethodScope.AddVar"); fn != nil {
+		pos = prog.Pos(fn.Pos())
 	}
-	pos := prog.Pos(fn.Pos())
-	sig := fn.Type().(*types.Signature)
 	cases := kindCases()
 	if c.Tier == "thorough" {
 		// every case once more inside each unary constructor and as the value of a map: the walk is transitive
@@ -300,45 +298,57 @@ func kindsTable(c *Ctx) {
 			cases = append(cases, kcase{desc: "func() of " + tc.desc, t: kSig("sigwrap("+tc.t.ID+")", nil, []ktype{tc.t}), want: tc.want})
 		}
 	}
+	// Observed through the exported API, whatever walks the type inside: a variable of the type is added
+	// to a fresh method scope (AddVar); what the registry then reports as imported (Imports, Package.Path)
+	// must be exactly the packages the type printer asks a qualifier for, and the variable's own type text
+	// must find a qualifier for each of them (Var.TypeString with go/types.TypeString modelled as "ask
+	// the qualifier for every package of the type").
 	for _, tc := range cases {
-		w, err := newRegWorld(prog, nil, "")
-		if err != nil {
-			run.Undecided("G-KINDS/table", tc.desc, pos, "the registry cannot be built: "+err.Error())
-			continue
+		w, err := newNameWorld(prog)
+		var v *interp.Struct
+		if err == nil {
+			v, err = w.add(interp.Lit("x"), tc.t, "")
 		}
-		w.m.ExtVars["go/types.Unsafe"] = pkgOpaque("unsafe", "unsafe")
-		imports := &interp.MapV{}
-		var args []interp.Value
-		for i := 0; i < sig.Params().Len(); i++ {
-			pt := sig.Params().At(i).Type()
-			switch {
-			case types.TypeString(pt, nil) == "go/types.Type":
-				args = append(args, tc.t)
-			default:
-				if _, ok := pt.Underlying().(*types.Map); ok {
-					args = append(args, imports)
-				} else {
-					args = append(args, w.m.Zero(pt))
-				}
-			}
-		}
-		var recv interp.Value
-		if sig.Recv() != nil {
-			// the receiver is the scope the registry hands out
-			ms := prog.LookupFunc(load.PkgRegistry, "Registry.MethodScope")
-			if ms == nil {
-				run.Undecided("G-KINDS/table", tc.desc, pos, "(*Registry).MethodScope not found")
-				continue
-			}
-			recv, err = w.m.CallFunc(token.NoPos, ms, w.reg, nil)
-			if err != nil {
-				run.Undecided("G-KINDS/table", tc.desc, pos, "MethodScope cannot be interpreted: "+err.Error())
-				continue
-			}
-		}
-		_, err = w.m.CallFunc(token.NoPos, fn, recv, args)
 		if err == nil && w.m.Choices.Forked() {
 			err = fmt.Errorf("the walk decides on something the abstract type does not fix (%s)", w.m.Choices.Describe())
+		}
+		var regs []string
+		quals := map[string]string{}
+		if err == nil {
+			regs, err = w.registeredPaths(quals)
+		}
+		// the variable's own view: a qualifier for every package the printer asks about
+		var unqualified []string
+		if err == nil {
+			want := tc.want
+			w.m.Ext["go/types.TypeString"] = func(m *interp.Machine, p token.Pos, recv interp.Value, args []interp.Value) (interp.Value, error) {
+				if len(args) != 2 {
+					return &interp.Unknown{Why: "types.TypeString arity"}, nil
+				}
+				for _, path := range want {
+					name := path[strings.LastIndex(path, "/")+1:]
+					q, err := m.Call(p, args[1], []interp.Value{pkgOpaque(path, name)})
+					if err != nil {
+						return nil, err
+					}
+					if qs, ok := q.(*interp.Sym); !ok || qs.Flat() == "" {
+						unqualified = append(unqualified, path+" (registered, but the variable has no qualifier for it)")
+					} else if rq, ok := quals[path]; ok && rq != qs.Flat() {
+						unqualified = append(unqualified, fmt.Sprintf("%s (registered with the qualifier %q, but the variable prints it as %q)", path, rq, qs.Flat()))
+					}
+				}
+				return interp.Lit("T"), nil
+			}
+			w.m.Ext["go/types.WriteType"] = func(m *interp.Machine, p token.Pos, recv interp.Value, args []interp.Value) (interp.Value, error) {
+				if len(args) != 3 {
+					return &interp.Unknown{Why: "types.WriteType arity"}, nil
+				}
+				return w.m.Ext["go/types.TypeString"](m, p, nil, args[1:])
+			}
+			_, err = w.m.CallMethod(token.NoPos, &interp.Ptr{Elem: v}, "TypeString", nil)
+			if err == nil && w.m.Choices.Forked() {
+				err = fmt.Errorf("the type text decides on something the abstract type does not fix (%s)", w.m.Choices.Describe())
+			}
 		}
 		if err != nil {
 			p := pos
@@ -348,37 +358,14 @@ func kindsTable(c *Ctx) {
 			run.Undecided("G-KINDS/table", tc.desc, p, "import discovery cannot be interpreted for "+tc.desc+": "+err.Error())
 			continue
 		}
-		got := map[string]bool{}
-		for _, k := range imports.Keys {
-			if s, ok := k.(*interp.Sym); ok {
-				got[s.Flat()] = true
-			}
-		}
-		regImports, _ := w.mapField(false)
-		inReg := map[string]bool{}
-		if regImports != nil {
-			for _, k := range regImports.Keys {
-				if s, ok := k.(*interp.Sym); ok {
-					inReg[s.Flat()] = true
-				}
-			}
-		}
-		var gl, missingReg []string
-		for k := range got {
-			gl = append(gl, k)
-			if !inReg[k] {
-				missingReg = append(missingReg, k)
-			}
-		}
-		for k := range inReg {
-			if !got[k] {
-				gl = append(gl, k+" (registry only)")
-			}
+		gl := append([]string{}, regs...)
+		for _, u := range unqualified {
+			gl = append(gl, u)
 		}
 		sort.Strings(gl)
 		want := append([]string{}, tc.want...)
 		sort.Strings(want)
-		ok := strings.Join(gl, ",") == strings.Join(want, ",") && len(missingReg) == 0
+		ok := strings.Join(gl, ",") == strings.Join(want, ",")
 		run.Check("G-KINDS/table", tc.desc, pos, ok, fmt.Sprintf("for a value of type %s import discovery registers %v, want exactly %v — the packages the type printer prints a qualifier for at that type (each component is a named type of its own package; a missing one means a printed type without its import, an extra one an import the file never uses)", tc.desc, gl, want))
 	}
 	run.Floor("G-KINDS/table", 15)
